@@ -726,12 +726,18 @@ func init() {
 		ID: "C06.R1", Props: []string{"C06", "C11", "C01"}, Min: 2,
 		Doc: "supplied slot content is evaluated and never shared: node lists loaded from SlotContent.Nodes (one object shared by every use of the slot) reach an evaluator's result only through an evaluator call on a deep clone — never appended or returned as they are (raw leak of {{ }} and aliasing that can make the output's sibling list cyclic)",
 		Run: func(p *Prog, c *Ctx) {
+			// the node-carrying fields of SlotContent: the supplied children ([]*html.Node) and the scoped-slot
+			// template (*html.Node) — both are one object shared by every use of the slot
+			nodeFields := map[*types.Var]bool{}
 			var nodesField *types.Var
 			if o := p.PkgBy[modPath].Types.Scope().Lookup("SlotContent"); o != nil {
 				if st, ok := o.Type().Underlying().(*types.Struct); ok {
 					for i := 0; i < st.NumFields(); i++ {
 						if isNodeSlice(st.Field(i).Type()) {
 							nodesField = st.Field(i)
+						}
+						if isNodeSlice(st.Field(i).Type()) || isNamed(st.Field(i).Type(), "golang.org/x/net/html", "Node") {
+							nodeFields[st.Field(i)] = true
 						}
 					}
 				}
@@ -757,7 +763,7 @@ func init() {
 						}
 					}
 				}
-				if site, ok := u.(ssa.CallInstruction); ok && (calleeName(site.Common()) == "(*vuego.Vue).evaluate" || calleeName(site.Common()) == "(*vuego.Vue).evalTemplate") {
+				if site, ok := u.(ssa.CallInstruction); ok && (calleeName(site.Common()) == "(*vuego.Vue).evaluate" || calleeName(site.Common()) == "(*vuego.Vue).evalTemplate" || calleeName(site.Common()) == "(*vuego.Vue).evalInclude") {
 					// evaluating the shared nodes themselves is fine for text, but evaluate relinks siblings of what it is given:
 					// only private clones may be handed over
 					return "shared slot nodes handed to the evaluator without cloning"
@@ -770,10 +776,11 @@ func init() {
 					continue
 				}
 				eachInstr(fn, func(in ssa.Instruction) {
-					if ld, ok := in.(*ssa.UnOp); ok && loadedField(ld) == nodesField {
+					if ld, ok := in.(*ssa.UnOp); ok && nodeFields[loadedField(ld)] {
 						loads++
-						t.Seed(ld, fmt.Sprintf("SlotContent.Nodes loaded at %s", p.instrPos(ld)))
-						c.ok(fmt.Sprintf("%s: load of SlotContent.Nodes#%d", shortName(fn), loads), p.instrPos(ld), "followed to its uses")
+						fname := canonFieldName(loadedField(ld))
+						t.Seed(ld, fmt.Sprintf("SlotContent.%s loaded at %s", fname, p.instrPos(ld)))
+						c.ok(fmt.Sprintf("%s: load of SlotContent.%s#%d", shortName(fn), fname, loads), p.instrPos(ld), "followed to its uses")
 					}
 				})
 			}
